@@ -343,12 +343,17 @@ impl Mt4 {
     }
 }
 
+/// Full four component dot product, Pt4::dot only uses xyz.
+fn dot4(a: Pt4, b: Pt4) -> f64 {
+    a.x * b.x + a.y * b.y + a.z * b.z + a.w * b.w
+}
+
 impl std::ops::Mul<Pt4> for Mt4 {
     type Output = Pt4;
 
     fn mul(self, rhs: Pt4) -> Self::Output {
         let t = self.transposed();
-        Pt4::new(t.x.dot(rhs), t.y.dot(rhs), t.z.dot(rhs), t.w.dot(rhs))
+        Pt4::new(dot4(t.x, rhs), dot4(t.y, rhs), dot4(t.z, rhs), dot4(t.w, rhs))
     }
 }
 
@@ -372,28 +377,28 @@ impl std::ops::Mul<Mt4> for Mt4 {
         let t = self.transposed();
         Mt4::new(
             Pt4::new(
-                t.x.dot(rhs.x),
-                t.y.dot(rhs.x),
-                t.z.dot(rhs.x),
-                t.w.dot(rhs.x),
+                dot4(t.x, rhs.x),
+                dot4(t.y, rhs.x),
+                dot4(t.z, rhs.x),
+                dot4(t.w, rhs.x),
             ),
             Pt4::new(
-                t.x.dot(rhs.y),
-                t.y.dot(rhs.y),
-                t.z.dot(rhs.y),
-                t.w.dot(rhs.y),
+                dot4(t.x, rhs.y),
+                dot4(t.y, rhs.y),
+                dot4(t.z, rhs.y),
+                dot4(t.w, rhs.y),
             ),
             Pt4::new(
-                t.x.dot(rhs.z),
-                t.y.dot(rhs.z),
-                t.z.dot(rhs.z),
-                t.w.dot(rhs.z),
+                dot4(t.x, rhs.z),
+                dot4(t.y, rhs.z),
+                dot4(t.z, rhs.z),
+                dot4(t.w, rhs.z),
             ),
             Pt4::new(
-                t.x.dot(rhs.w),
-                t.y.dot(rhs.w),
-                t.z.dot(rhs.w),
-                t.w.dot(rhs.w),
+                dot4(t.x, rhs.w),
+                dot4(t.y, rhs.w),
+                dot4(t.z, rhs.w),
+                dot4(t.w, rhs.w),
             ),
         )
     }
